@@ -23,6 +23,8 @@
 (*   free     answers (AU) of the same call on the twin robot w/o limits   *)
 (*   truth    [known, q, nonsingular, wrist_ok, realised_by_prev]          *)
 (*   resolve  sizes of the answer sets for the poses of the answers        *)
+(*   pgram    the wrapper stack contains a parallelogram coupling (answers  *)
+(*            are re-coupled after the leaf solver ordered them)           *)
 (*   twin_shift5  2 * sign5 * offset5 (AU): the wrist twin negates the     *)
 (*            geometric J5                                                 *)
 (***************************************************************************)
@@ -55,7 +57,7 @@ Sound(c) ==
 \* J5 is negated geometrically: in robot coordinates that is -q5 + 2 * sign5 * offset5 (c.twin_shift5)
 Twin(c, q) == <<q[1], q[2], q[3], q[4] + HALF_AU, c.twin_shift5 - q[5], q[6] - HALF_AU>>
 Complete(c) ==
-  IF ~(c.entry = "inverse" /\ c.dof = 6 /\ c.truth.known /\ c.truth.nonsingular) THEN {}
+  IF ~(c.entry = "inverse" /\ c.dof = 6 /\ c.truth.known /\ c.truth.nonsingular /\ ~c.pgram) THEN {}
   ELSE LET qs == Qs(c)
            inTol(q) == ~c.lim \/ (OnArcVec(c.from, c.to, q, N_AU) /\ EndDistVec(c.from, c.to, q, N_AU) >= BandLim)
        IN (IF inTol(c.truth.q) /\ ~\E i \in 1..Len(qs) : SameMod(qs[i], c.truth.q)
@@ -72,7 +74,7 @@ Ref(c) == IF c.prev = <<>> THEN c.centres ELSE c.prev
 Cost16(c, q) == (16 - c.w16) * Dist1(q, Ref(c)) + c.w16 * Dist1(q, c.centres)
 COST_BAND == 16 * 14
 Ordered(c) ==
-  IF ~(Continuing(c) /\ c.prev_in_range) THEN {}
+  IF ~(Continuing(c) /\ c.prev_in_range /\ ~c.pgram) THEN {}
   ELSE LET qs == Qs(c) IN
     (IF \E i \in 1..Len(qs) : \E j \in 1..(IF FiveDof(c) THEN 5 ELSE 6) : Abs(qs[i][j] - Ref(c)[j]) > HALF_AU + EQ_AU
      THEN {"C04:not-nearest-representative"} ELSE {})
